@@ -5,7 +5,7 @@ import z3
 from .common import *   # noqa: F401,F403
 from .common import (Instance, E, SBytes, bytes_items, items_eq, note_key,
                      Ctx, concretize)
-from symx import models, sstr
+from symx import models, sstr, core
 from ref import wire
 
 PROPERTY = 'C17'
@@ -26,10 +26,74 @@ META = {
 }
 
 
+class ParsedKey(object):
+    """E-der: what cryptography's DER loader returns for a key that parses.
+    Its canonical re-encoding is an arbitrary byte string: a valid key in a
+    non-canonical encoding (bare PKCS#1, AlgorithmIdentifier without the
+    NULL parameters) re-encodes to different bytes."""
+
+    def __init__(self, der):
+        self.der = der
+
+    def public_bytes(self, *a, **kw):
+        return Ctx.cur.bytes('reencoded_key', len(bytes_items(self.der)))
+
+    def public_numbers(self):
+        raise core.Unsupported('public_numbers of the key stand-in')
+
+
+def _load_der(data, backend=None):
+    if Ctx.cur.env.get('key_parses'):
+        return ParsedKey(data)
+    raise ValueError('Could not deserialize key data.')
+
+
 def shadows(sh, params):
     import minecraft.networking.encryption as enc
     sh.install(enc, sha1=models.Sha1Model, int=models.sym_int,
-               format=models.sym_format)
+               format=models.sym_format, load_der_public_key=_load_der)
+
+
+_REAL_KEY = []
+
+
+def _noncanonical_key():
+    """a real RSA public key in bare PKCS#1 form: the loader accepts it and
+    its SubjectPublicKeyInfo re-encoding differs"""
+    if not _REAL_KEY:
+        from cryptography.hazmat.primitives.asymmetric import rsa
+        from cryptography.hazmat.primitives import serialization
+        k = rsa.generate_private_key(public_exponent=65537, key_size=1024)
+        _REAL_KEY.append(k.public_key().public_bytes(
+            serialization.Encoding.DER, serialization.PublicFormat.PKCS1))
+    return _REAL_KEY[0]
+
+
+def valid_key(ctx, key_len=4):
+    """the key the server sent is a VALID RSA key (it parses), in an
+    encoding that need not be the canonical one: the hash still covers the
+    bytes exactly as sent"""
+    import minecraft.networking.encryption as enc
+    sid = sstr.ctx_str(ctx, 'server_id', 0)
+    secret = ctx.bytes('secret', 16)
+    if ctx.mode == 'sym':
+        key = ctx.bytes('key', key_len)
+        ctx.env['key_parses'] = True
+    else:
+        key = _noncanonical_key()
+    got = enc.generate_verification_hash(sid, secret, key)
+    if ctx.mode == 'sym':
+        h = ctx.env['sha1'][-1]
+        msg = h.message()
+        ok = z3.And(z3.BoolVal(len(msg) == 16 + key_len),
+                    items_eq(msg[:16], bytes_items(secret)),
+                    items_eq(msg[16:], bytes_items(key)),
+                    _java_hex_ok(got, bytes_items(h.digest())))
+    else:
+        ok = _java_hex_ok(got, list(hashlib.sha1(
+            bytes(secret) + bytes(key)).digest()))
+    note_key(ctx, 'C17:valid_key')
+    return ok
 
 
 def _java_hex_ok(s, digest_items):
@@ -154,6 +218,9 @@ def instances(tier, seed):
         Instance('server_hash:1:4', 'server_hash',
                  {'id_len': 1, 'key_len': 4}, W=192, budget_s=1800,
                  witness_every=5),
+        Instance('valid_key', 'valid_key', {}, W=192, budget_s=900,
+                 witness_every=5,
+                 note='E-der: the key parses and may re-encode differently'),
         Instance('sentinel:server_hash', 'server_hash',
                  {'id_len': 0, 'key_len': 0, 'sentinel': True}, W=192,
                  expect='violation', budget_s=900,
